@@ -92,6 +92,27 @@ Definition members_are (o : outcome) (ins outs : list N) : bool :=
   | _ => false
   end.
 
+(* "keeps letting connections in" at the level of the access API: after ANY history of session / connect /
+   disconnect / deny / allow / send calls, a session for a booking that is not denied at that point,
+   followed by a connect presenting its code, runs to completion and the new connection is on the topic *)
+Theorem C08_valid_connect_always_joins :
+  forall allow_empty aevs code bid topic n cap,
+    aconn_fresh [] (aevs ++ [ASession code bid topic; AConnect code n cap]) ->
+    memN bid (denied (lite_after allow_empty lite_init aevs)) = false ->
+    ((bid =? 0)%N && negb allow_empty)%bool = false ->
+    exists h, run hub_init (lower_all allow_empty lite_init (aevs ++ [ASession code bid topic; AConnect code n cap])) = HOk h /\
+              is_member n h = true.
+Proof. exact valid_connect_joins. Qed.
+Print Assumptions C08_valid_connect_always_joins.
+
+(* non-vacuity: the hypotheses are met after a deny / allow of the same booking *)
+Example C08_witness_reconnect :
+  let api := [ASession 1 7 3; AConnect 1 11 2; ADeny 7; AAllow 7]%N in
+  aconn_fresh [] (api ++ [ASession 2 7 3; AConnect 2 12 2]%N) /\
+  memN 7%N (denied (lite_after false lite_init api)) = false /\
+  members_are (run hub_init (lower_all false lite_init (api ++ [ASession 2 7 3; AConnect 2 12 2]%N))) [12%N] [11%N] = true.
+Proof. vm_compute. repeat split; intuition discriminate. Qed.
+
 Example C08_witness :
   let api := [ASession 1 7 3; AConnect 1 11 2; ADeny 7; AAllow 7; ASession 2 7 3; AConnect 2 12 2; ASend 12 5]%N in
   aconn_fresh [] api /\
